@@ -113,6 +113,9 @@ type opsCase struct {
 	Doc   string  `json:"doc"`
 	Start []int   `json:"start"` // DOM path of the start node, root first
 	Ops   []opRec `json:"ops"`
+	// Repaired: the reference side is the repaired navigator fixNav (Model/Nav.v run_dom true),
+	// which makes sequences with MoveToRoot on an attribute position (Q2) comparable.
+	Repaired bool `json:"repaired_reference,omitempty"`
 }
 
 type opsOutcome struct {
@@ -154,9 +157,17 @@ func (d *docCtx) nodeAt(start []int) int {
 // equal success booleans and equal observations.  Exception Q1 (see normaliseRef / Model/Nav.v):
 // Value() on a Root-typed node, where xmlquery returns "" and the IDR must return the XPath
 // string-value of the root (all text of the tree, computed here from the DOM).
-func runOps(d *docCtx, startIdx int, ops []opRec) *opsOutcome {
+func refNav(n *xmlquery.Node, fx bool) xpath.NodeNavigator {
+	if fx {
+		f, _ := newFixNav(n)
+		return f
+	}
+	return xmlquery.CreateXPathNavigator(n)
+}
+
+func runOps(d *docCtx, startIdx int, ops []opRec, fx bool) *opsOutcome {
 	out := &opsOutcome{failAt: -1}
-	xr := initRegs(xmlquery.CreateXPathNavigator(d.xnodes[startIdx]))
+	xr := initRegs(refNav(d.xnodes[startIdx], fx))
 	ir := initRegs(idr.VerifNavigator(d.inodes[startIdx]))
 	for k, o := range ops {
 		onRoot, onAttr := false, false
@@ -165,7 +176,7 @@ func runOps(d *docCtx, startIdx int, ops []opRec) *opsOutcome {
 			t := xr[o.X].NodeType()
 			onRoot, onAttr = t == xpath.RootNode, t == xpath.AttributeNode
 		}()
-		if o.Kind == "move" && o.Arg == "Root" && onAttr {
+		if o.Kind == "move" && o.Arg == "Root" && onAttr && !fx {
 			out.outOfScope = true
 			break
 		}
@@ -183,7 +194,7 @@ func runOps(d *docCtx, startIdx int, ops []opRec) *opsOutcome {
 		switch {
 		case a.Kind == "panic" || b.Kind == "panic":
 			bad = "navigator panicked"
-		case o.Kind == "obs" && o.Arg == "Value" && onRoot:
+		case o.Kind == "obs" && o.Arg == "Value" && onRoot && !fx:
 			out.quirkQ1++
 			want := xr[o.X].(*xmlquery.NodeNavigator).Current().InnerText()
 			if b.S != want {
@@ -202,10 +213,10 @@ func runOps(d *docCtx, startIdx int, ops []opRec) *opsOutcome {
 
 // genOps draws an operation sequence.  It looks at the reference navigator's state only to stay
 // out of Q2 (MoveToRoot on an attribute position, where xmlquery keeps its attribute index).
-func genOps(r *vh.Rng, d *docCtx, startIdx int) []opRec {
+func genOps(r *vh.Rng, d *docCtx, startIdx int, fx bool) []opRec {
 	n := r.Between(5, 200)
 	var ops []opRec
-	xr := initRegs(xmlquery.CreateXPathNavigator(d.xnodes[startIdx]))
+	xr := initRegs(refNav(d.xnodes[startIdx], fx))
 	observeAll := r.Chance(0.5)
 	for len(ops) < n {
 		x := r.Pick(nRegs)
@@ -216,6 +227,9 @@ func genOps(r *vh.Rng, d *docCtx, startIdx int) []opRec {
 		switch c := r.Pick(100); {
 		case c < 58:
 			w := []int{1, 5, 7, 9, 3, 9, 5} // Root Parent NextAttr Child First Next Prev
+			if fx {
+				w[0] = 4
+			}
 			t := 0
 			for _, v := range w {
 				t += v
@@ -227,7 +241,7 @@ func genOps(r *vh.Rng, d *docCtx, startIdx int) []opRec {
 				m++
 			}
 			o = opRec{Kind: "move", X: x, Arg: moveNames[m]}
-			if m == 0 && xr[x].NodeType() == xpath.AttributeNode {
+			if m == 0 && xr[x].NodeType() == xpath.AttributeNode && !fx {
 				o.Arg = "Parent"
 			}
 		case c < 85:
@@ -251,14 +265,14 @@ func genOps(r *vh.Rng, d *docCtx, startIdx int) []opRec {
 func opsCanon(c *opsCase) string {
 	var sb strings.Builder
 	sb.WriteString(c.Doc)
-	sb.WriteString("|" + pathLabel(c.Start) + "|")
+	sb.WriteString("|" + pathLabel(c.Start) + "|" + fmt.Sprint(c.Repaired) + "|")
 	for _, o := range c.Ops {
 		fmt.Fprintf(&sb, "%s%d.%d%s;", o.Kind[:2], o.X, o.Y, o.Arg)
 	}
 	return sb.String()
 }
 
-func coqRun(start []int, ops []opRec, out *opsOutcome) string {
+func coqRun(start []int, ops []opRec, out *opsOutcome, fx bool) string {
 	os := make([]string, len(ops))
 	for i, o := range ops {
 		os[i] = o.coq()
@@ -271,18 +285,18 @@ func coqRun(start []int, ops []opRec, out *opsOutcome) string {
 	for i, v := range out.ires {
 		is[i] = v.coq()
 	}
-	return "(mkRun " + coqPath(start) + " " + vh.CoqList(os) + "\n   " + vh.CoqList(xs) + "\n   " + vh.CoqList(is) + ")"
+	return "(mkRun " + vh.CoqBool(fx) + " " + coqPath(start) + " " + vh.CoqList(os) + "\n   " + vh.CoqList(xs) + "\n   " + vh.CoqList(is) + ")"
 }
 
 // shrinkOps removes operations one at a time as long as the same oracle clause still fails and
 // the sequence stays inside the scope of the reference (no Q2).
-func shrinkOps(d *docCtx, startIdx int, ops []opRec, what string) []opRec {
+func shrinkOps(d *docCtx, startIdx int, ops []opRec, what string, fx bool) []opRec {
 	cur := append([]opRec(nil), ops...)
 	for changed := true; changed; {
 		changed = false
 		for i := len(cur) - 2; i >= 0; i-- {
 			cand := append(append([]opRec(nil), cur[:i]...), cur[i+1:]...)
-			out := runOps(d, startIdx, cand)
+			out := runOps(d, startIdx, cand, fx)
 			if !out.outOfScope && out.failAt >= 0 && out.failWhat == what {
 				cur = cand[:out.failAt+1]
 				changed = true
